@@ -14,7 +14,7 @@ func VerifConsts() map[string]string {
 		}
 	}
 	return map[string]string{
-		"base64Alphabet": "S:" + string(alphabet),
+		"base64Alphabet": "LB:" + byteList(alphabet),
 		"xteaRounds":     "N:" + itoa(uint64(xteaRounds)),
 		"xteaDelta":      "U32:" + itoa(uint64(xteaDelta)),
 		"xteaSum":        "U32:" + itoa(uint64(xteaSum)),
@@ -31,4 +31,15 @@ func itoa(v uint64) string {
 		v /= 10
 	}
 	return string(b)
+}
+
+func byteList(b []byte) string {
+	out := ""
+	for i, c := range b {
+		if i > 0 {
+			out += ","
+		}
+		out += itoa(uint64(c))
+	}
+	return out
 }
